@@ -67,15 +67,15 @@ Section Mat.
   Definition two : K := kadd k1 k1.
   Definition destroy2 : mat := [[k0; k1]; [k0; k0]].
   Definition num2 : mat := [[k0; k0]; [k0; k1]].
-  Definition destroy3 (s2 : K) : mat := [[k0; k1; k0]; [k0; k0; s2]; [k0; k0; k0]].
+  Definition destroy3 : mat := [[k0; k1; k0]; [k0; k0; s2 R]; [k0; k0; k0]].
   Definition num3 : mat := [[k0; k0; k0]; [k0; k1; k0]; [k0; k0; two]].
 
   (* generator of one idle subsystem with amplitude-damping rate g1 and number-dephasing rate g2
      (the two terms RelaxationNoise emits for a qubit: coefficients c1, c2 with c1^2 = g1, c2^2 = g2) *)
   Definition relax_gen2 (g1 g2 : K) (rho : mat) : mat :=
     madd 2 (lindr 2 g1 destroy2 rho) (lindr 2 g2 num2 rho).
-  Definition relax_gen3 (s2 g1 g2 : K) (rho : mat) : mat :=
-    madd 3 (lindr 3 g1 (destroy3 s2) rho) (lindr 3 g2 num3 rho).
+  Definition relax_gen3 (g1 g2 : K) (rho : mat) : mat :=
+    madd 3 (lindr 3 g1 destroy3 rho) (lindr 3 g2 num3 rho).
 
   Definition gen2 (a b c d : K) : mat := [[a; b]; [c; d]].
   Definition gen3 (a b c d e f g h i : K) : mat := [[a; b; c]; [d; e; f]; [g; h; i]].
